@@ -23,6 +23,14 @@ HITRAN files (spec/HitranCia.tla, MC_HitranCia.tla): a .cia file is a sequence o
       (refuted without the sort before filling, with running bounds, with held edges), exports every file over
       2 bands x 3 temperatures and simulates files over 3 bands x 4 temperatures; each is written as HITRAN text and
       as a pickle of the physical table, loaded through CIACache and compared at nodes, between nodes and off-grid.
+Exo-Transmit files (spec/ExoTransmitFile.tla, MC_ExoTransmitFile.tla): the one cross-section container whose reader re-orders an
+      axis (tabulated against wavelength, served on ascending wavenumber).  A file is a sequence of distinct wavelength blocks
+      (actions WriteBlock / CloseExo: any order -- ascending wavelength, ascending wavenumber, appended chunks, shuffled -- and any
+      subset); the physical table is a function of the block SET.  TLC checks a transcription of the re-ordering against it
+      (refuted for "flip the axis", "sort the grid only" and "inverse permutation"), exports every file over 5 (6) candidate wavelengths and
+      simulates files over 8; each is written in exactly that block order (table shape 2..4 pressures x 2..4 temperatures) and
+      as a pickle of the physical table, both loaded through OpacityCache and compared: grids, table, opacity(T, P) at nodes and
+      between, opacity(T, P, requested grid).
 """
 import os
 import random
@@ -36,6 +44,7 @@ import numpy as np
 from ..core import Machinery, close, frac, run_tlc
 from ..fixtures import GridOpacity, GridKTable
 from .. import fx_files as fx
+from .. import fx_exofile
 
 REL = 1e-12
 MOL = {'A': 'H2O', 'B': 'CH4'}
@@ -216,7 +225,7 @@ def run_formats(ctx, sb, units, rounds):
             cases.append(('hdf5:' + u, lambda d, u=u: fx.write_hdf5_opacity(d, 'H2O_verif', 'H2O', WN, TEMPS, PRESS, x, unit=u, unit_factor=float(fac(units[u])),
                                                                            ext='.h5' if u != 'Pa' else '.hdf5', name_as=['bytes', 'array', 'str'][r % 3])))
         cases.append(('exotransmit:bar', lambda d: fx.write_exotransmit(d, 'H2O', WN, TEMPS, PRESS, x, bar_factor=float(bar),
-                                                                          order=['wavelength', 'wavenumber'][(r // 2) % 2])))
+                                                                          order=['wavelength', 'wavenumber'][r % 2])))
         for cls, writer in cases:
             d = sb.mkdir('fmt_%d_%s' % (r, cls.replace(':', '_')))
             writer(d)
@@ -567,6 +576,86 @@ def select_files(vecs, limit, rng):
 
 
 # ----------------------------------------------------------------------------
+# binding A/C: Exo-Transmit files as sets of wavelength blocks written in any order (spec/ExoTransmitFile.tla)
+# ----------------------------------------------------------------------------
+
+EXO_T = [300.0, 600.0, 1200.0, 2400.0]
+EXO_P = [1e2, 1e4, 1e6, 1e7]              # Pa
+EXO_MOLS = ['H2O', 'CH4', 'CO2']
+
+
+def run_exofiles(ctx, sb, vecs, units, tag):
+    """Each vector is a file (sequence of candidate wavelength indices as TLC wrote the blocks) with the specification's
+    physical table: the ascending wavenumber grid (exact) and the block that owns each of its columns.  The file is written
+    as Exo-Transmit text in that block order, the physical table as a pickle; both are loaded through the real
+    OpacityCache and must be the same function of (T, P, wavenumber)."""
+    from taurex.cache import OpacityCache
+    bar = float(fac(units['bar']))
+    xf = float(fac(units['exotransmit']))
+    exown = fac(units['exown'])
+    d1, d2 = sb.mkdir('exo_%s_pickle' % tag), sb.mkdir('exo_%s_text' % tag)
+    for v in vecs:
+        h = zlib.crc32(repr((ctx.seed, v['file'])).encode())
+        nP, nT = 2 + h % 3, 2 + (h // 3) % 3
+        mode = ['linear', 'exp'][(h // 9) % 2]
+        mol = EXO_MOLS[(h // 18) % 3]
+        temps, press = EXO_T[:nT], EXO_P[:nP]
+        rng = random.Random('%d:%r' % (ctx.seed, v['file']))
+        # one column per block, every entry identifies its block (k/64 units, exact in binary)
+        col = {k: (np.array([rng.randint(1, 127) for _ in range(nP * nT)]).reshape(nP, nT) + 128.0 * k) / 64.0 * 1e-20 for k in v['file']}
+        wl_m = {k: Fraction(int(v['wl'][k - 1]), 10 ** 9) for k in v['file']}
+        want_grid = [frac(g) for g in v['grid']]
+        if [exown / wl_m[k] for k in v['cols']] != want_grid:
+            raise Machinery('Exo-Transmit export inconsistent with the wavelength -> wavenumber constant of OpacityFiles.tla: %r' % (v,))
+        wn = np.array([float(g) for g in want_grid])
+        table = np.stack([col[k] for k in v['cols']], axis=-1)
+        cls = 'xsec:exotransmit:' + v['layout']
+        vec = dict(v, kind='exofile', seed=ctx.seed, tag=tag, shape=[nP, nT, len(wn)], mode=mode)
+        for d in (d1, d2):                                   # one table per directory (the molecule changes from file to file)
+            for f in os.listdir(d):
+                os.remove(os.path.join(d, f))
+        fx.write_pickle_opacity(d1, mol + '.R100.TauREx', wn, temps, press, table, bar_factor=bar)
+        fx_exofile.write_exotransmit_blocks(d2, mol, temps, press, [(float(wl_m[k]), col[k]) for k in v['file']], bar_factor=bar, xsec_factor=xf)
+        ref = GridOpacity(mol, wn, temps, press, table, mode)
+        objs = {}
+        for fmt, d in (('pickle', d1), ('exotransmit', d2)):
+            sb.reset()
+            OpacityCache().set_opacity_path(d)
+            OpacityCache().set_interpolation(mode)
+            try:
+                objs[fmt] = OpacityCache()[mol]
+            except Exception as e:
+                ctx.verdict('same_table_all_formats', False, cls=cls if fmt == 'exotransmit' else 'xsec:pickle:exo-table',
+                            detail='file %r (%s): not loadable through the cache: %r' % (v['file'], fmt, e), vector=vec)
+        if len(objs) < 2:
+            continue
+        obj, pick = objs['exotransmit'], objs['pickle']
+        T, P = temps, press
+        queries = [(T[0], P[0]), (T[-1], P[-1]), (0.5 * (T[0] + T[1]), (P[0] * P[1]) ** 0.5), (0.25 * T[-2] + 0.75 * T[-1], 0.9 * P[-1]), (1.03 * T[0], 3 * P[0])]
+        try:
+            ctx.verdict('name_is_sanitised', obj.moleculeName == mol, cls='name:exotransmit:' + v['layout'], detail='name %r, file opac%s.dat' % (obj.moleculeName, mol), vector=vec)
+            ctx.verdict('mode_takes_effect', obj._interp_mode == mode, cls='format:exotransmit:' + v['layout'], detail='mode %r, configured %r' % (obj._interp_mode, mode), vector=vec)
+            compare_opacity(ctx, obj, ref, table, np.array(press), cls, vec, queries=queries)
+            # a requested grid: the nodes and the points half-way between them
+            req = np.array(sorted(list(wn) + [0.5 * (a + b) for a, b in zip(wn[:-1], wn[1:])]))
+            for Tq, Pq in queries[1:4]:
+                a = np.asarray(obj.opacity(Tq, Pq, req), dtype=float)
+                b = np.asarray(ref.opacity(Tq, Pq, req), dtype=float)
+                c = np.asarray(pick.opacity(Tq, Pq, req), dtype=float)
+                ctx.verdict('same_table_all_formats', a.shape == b.shape and np.allclose(a, b, rtol=1e-11, atol=1e-55), cls=cls + ':wngrid',
+                            detail='file %r (wavelength index per block, file order): opacity(%g K, %g Pa, %r) = %r, physical table gives %r' % (v['file'], Tq, Pq, req.tolist()[:4], a.tolist()[:4], b.tolist()[:4]),
+                            vector=dict(vec, T=Tq, P=Pq))
+                ctx.verdict('same_table_all_formats', a.shape == c.shape and np.allclose(a, c, rtol=1e-11, atol=1e-55), cls='xsec:pickle-vs-exotransmit:' + v['layout'],
+                            detail='file %r: opacity(%g K, %g Pa, grid): exo-transmit %r, pickle of the same table %r' % (v['file'], Tq, Pq, a.tolist()[:4], c.tolist()[:4]),
+                            vector=dict(vec, T=Tq, P=Pq))
+        except Exception as e:
+            ctx.verdict('same_table_all_formats', False, cls=cls + ':eval', detail='file %r: evaluation failed: %r' % (v['file'], e), vector=vec)
+    sb.reset()
+    ctx.traces += len(vecs)
+    return len(vecs)
+
+
+# ----------------------------------------------------------------------------
 # binding C: replay of TLC behaviours on the real singletons
 # ----------------------------------------------------------------------------
 
@@ -886,6 +975,8 @@ def run(ctx):
                       names='all names of length <= 4 over {H,C,e,o,1,2,-,_} + 9 documented patterns',
                       units='HDF5 cross-sections and HDF5 k-tables x 14 SI prefixes x {Pa, N/m2, bar, atm, Torr, torr, Ba, barye, dyn/cm2} (spellings astropy accepts) '
                             'x units attribute as str / bytes x %d pressure grid(s)' % (1 if q else 3),
+                      exotransmit='files = every sequence of >= 2 distinct wavelength blocks over %d candidate wavelengths (%d files) + TLC-simulated files over 8; '
+                                  'tables of 2..4 pressures x 2..4 temperatures, both interpolation modes' % ((5, 320) if q else (6, 1950)),
                       hitran='files = every sequence of distinct (band, temperature) blocks with >= 2 temperatures over 2 bands x 3 temperatures (1 944 files), '
                              'TLC-simulated files over 3 bands x 4 temperatures; design model %s' % ('2 bands x 3 temperatures' if q else '2 bands x 4 temperatures'))
     ctx.assumptions = ['object identity observed with `is` while every served object is kept alive',
@@ -910,6 +1001,15 @@ def run(ctx):
              ('nonvacuous-hitran-unsorted-band', 'MC_HitranCia', 'MC_HitranCia_nonvac1.cfg', dict(workers=1), 'NeverUnsortedBand'),
              ('nonvacuous-hitran-interior-gap', 'MC_HitranCia', 'MC_HitranCia_nonvac2.cfg', dict(workers=1), 'NeverInteriorGap'),
              ('simulate-hitran', 'MC_HitranCia', 'SIM_HitranCia.cfg', dict(workers=1, simulate='num=%d' % (150 if q else 2500), depth=14, seed=ctx.seed + 1), None),
+             # Exo-Transmit files as sets of wavelength blocks in any order; the re-ordering of the reader against the physical table
+             # (the export config carries the invariants: design check and export in one run)
+             ('exofile-design', 'MC_ExoTransmitFile', 'EX_ExoTransmitFile_%s.cfg' % t, dict(workers=1), None),
+             ('refuted-exofile-flip', 'MC_ExoTransmitFile', 'MC_ExoTransmitFile_flip_refuted.cfg', dict(workers=1), 'ReaderMatchesTable'),
+             ('refuted-exofile-grid-only', 'MC_ExoTransmitFile', 'MC_ExoTransmitFile_none_refuted.cfg', dict(workers=1), 'ReaderMatchesTable'),
+             ('refuted-exofile-inverse-permutation', 'MC_ExoTransmitFile', 'MC_ExoTransmitFile_inverse_refuted.cfg', dict(workers=1), 'ReaderMatchesTable'),
+             ('nonvacuous-exofile-order', 'MC_ExoTransmitFile', 'MC_ExoTransmitFile_nonvac1.cfg', dict(workers=1), 'NeverOtherThanStockOrder'),
+             ('nonvacuous-exofile-mixed', 'MC_ExoTransmitFile', 'MC_ExoTransmitFile_nonvac2.cfg', dict(workers=1), 'NeverMixedOrder'),
+             ('simulate-exofile', 'MC_ExoTransmitFile', 'SIM_ExoTransmitFile.cfg', dict(workers=1, simulate='num=%d' % (80 if q else 1500), depth=10, seed=ctx.seed + 1), None),
              # declared pressure units: container x prefixed unit x attribute storage (x pressure grid)
              ('export-units', 'MC_OpacityUnits', 'EX_OpacityUnits_%s.cfg' % t, dict(workers=1), None),
              ('nonvacuous-units', 'MC_OpacityUnits', 'MC_OpacityUnits_nonvac.cfg', dict(workers=1), 'AllBar')]
@@ -923,7 +1023,7 @@ def run(ctx):
                      dict(workers=1, simulate='num=%d' % nsim, depth=13, seed=ctx.seed + 1), None))
     from concurrent.futures import ThreadPoolExecutor
     pool = ThreadPoolExecutor(max_workers=8)
-    futs = {j[0]: pool.submit(run_tlc, j[1], j[2], allow_violation=True, timeout=1500, coverage=j[0].startswith('cache-') or j[0] == 'hitran-design', **j[3]) for j in jobs}
+    futs = {j[0]: pool.submit(run_tlc, j[1], j[2], allow_violation=True, timeout=1500, coverage=j[0].startswith('cache-') or j[0] in ('hitran-design', 'exofile-design'), **j[3]) for j in jobs}
     results = {}
     for label, module, cfg, kw, refute in jobs:
         res = futs[label].result()
@@ -950,7 +1050,16 @@ def run(ctx):
     for a in ('Write', 'CloseFile'):
         if results['hitran-design'].action_cov.get(a, (0, 0))[1] == 0:
             raise Machinery('vacuous: action %s never taken in the HITRAN file model' % a)
+    for a in ('WriteBlock', 'CloseExo'):
+        if results['exofile-design'].action_cov.get(a, (0, 0))[1] == 0:
+            raise Machinery('vacuous: action %s never taken in the Exo-Transmit file model' % a)
     ctx.exhaustive = True
+    efiles = results['exofile-design'].tagged('EXO')
+    esim = results['simulate-exofile'].tagged('EXO')
+    if len(efiles) < (320 if q else 1950) or not esim:
+        raise Machinery('Exo-Transmit export incomplete: %d files, %d simulated files' % (len(efiles), len(esim)))
+    if not {'ascending-wavelength', 'ascending-wavenumber', 'two-chunks', 'shuffled'} <= {v['layout'] for v in efiles}:
+        raise Machinery('Exo-Transmit export does not cover every block layout')
     hfiles = results['hitran-design'].tagged('CIA')
     hsim = results['simulate-hitran'].tagged('CIA')
     uvecs = results['export-units'].tagged('UVEC')
@@ -971,7 +1080,11 @@ def run(ctx):
         nhit = run_hitran(ctx, sb, select_files(hfiles, 0, rng), units, 'exhaustive-2x3')
         nhit2 = run_hitran(ctx, sb, select_files(hsim, 0, rng), units, 'simulated-3x4')
         t3 = _time.time()
-        ctx.note('wall: TLC runs %.0f s, names+formats %.0f s, units %.0f s, HITRAN files %.0f s' % (t_tlc, t1 - ctx.t0 - t_tlc, t2 - t1, t3 - t2))
+        nexo = run_exofiles(ctx, sb, select_files(efiles, 0, rng), units, 'exhaustive')
+        nexo2 = run_exofiles(ctx, sb, select_files(esim, 0, rng), units, 'simulated-8')
+        t4 = _time.time()
+        ctx.note('wall: TLC runs %.0f s, names+formats %.0f s, units %.0f s, HITRAN files %.0f s, Exo-Transmit files %.1f s' % (t_tlc, t1 - ctx.t0 - t_tlc, t2 - t1, t3 - t2, t4 - t3))
+        ctx.note('Exo-Transmit files as block sequences: %d (every arrangement of every subset of %d wavelengths) + %d (TLC-simulated, 8 wavelengths)' % (nexo, 5 if q else 6, nexo2))
         nh = {}
         for k in ('xsec', 'ktable', 'cia'):
             hs = results['histories-%s' % k].tagged('HIST')
@@ -1013,6 +1126,9 @@ def replay(ctx, violations):
             elif kind == 'hitran':
                 ctx.seed = vec.get('seed', ctx.seed)
                 run_hitran(ctx, sb, [vec], units, 'replay')
+            elif kind == 'exofile':
+                ctx.seed = vec.get('seed', ctx.seed)
+                run_exofiles(ctx, sb, [vec], units, 'replay')
             else:
                 ctx.seed = vec.get('seed', ctx.seed)
                 run_formats(ctx, sb, units, vec.get('round', 0) + 1)
